@@ -23,9 +23,15 @@ fn run_property<P: Property>(p: &P, tier: Tier) -> i32 {
     }
     stats.extra.insert("replayed_files".into(), serde_json::json!(replays.len()));
     p.extra_phases(&cfg, &known, &mut stats);
+    let n_explicit = p.explicit_cases(tier).len();
+    if n_explicit > 0 {
+        let s = run_generated(p, &cfg, n_explicit, "explicit", &known);
+        stats.merge(s);
+        stats.extra.insert("enumerated_cases".into(), serde_json::json!(n_explicit));
+    }
     let (q, t) = p.cases();
     let n = cfg.cases(q, t);
-    if n > 1 || q > 0 {
+    if q > 0 {
         let s = run_generated(p, &cfg, n, "main", &known);
         stats.merge(s);
     }
@@ -62,6 +68,7 @@ macro_rules! dispatch {
             "C01" => $f(&props::c01::C01 $(, $arg)*),
             "C02" => $f(&props::c02::C02 $(, $arg)*),
             "C08" => $f(&props::c08::C08 $(, $arg)*),
+            "C18" => $f(&props::c18::C18 $(, $arg)*),
             other => {
                 eprintln!("unknown property {}", other);
                 3
